@@ -818,6 +818,41 @@ Proof.
     apply set_nth_Forall; [exact HC|]. apply HC'. apply (get_regs_Forall (Canon F) regs srcs _ HC EG).
 Qed.
 
+Lemma step_sel F hdr regs dst src ix :
+  Forall (Inv F) regs ->
+  step_post F regs (m_step cc F hdr regs (OSel dst src ix)) (s_step F hdr (map (abs F) regs) (OSel dst src ix)).
+Proof.
+  intros HI. simpl. rewrite !nth_error_map'.
+  destruct (nth_error regs dst) as [t0|] eqn:E0; simpl; [|apply post_same; exact HI].
+  destruct (nth_error regs src) as [t|] eqn:E; simpl; [|apply post_same; exact HI].
+  assert (HIt : Inv F t) by (eapply nth_error_Forall; eauto).
+  rewrite abs_length by exact HIt.
+  destruct (resolve (t_len t) ix) as [sel|] eqn:ER; [|apply post_same; exact HI].
+  pose proof (resolve_bound _ _ _ ER) as HB.
+  destruct t as [l|t]; simpl in *.
+  - destruct (l_index_ok F sel l HB HIt) as [HI' Habs].
+    unfold step_post. simpl. split; [apply set_nth_Forall; auto|].
+    split; [unfold set_reg; rewrite <- set_nth_map; simpl; rewrite Habs; reflexivity|].
+    split; [reflexivity|]. intros HC. split; [reflexivity|].
+    apply set_nth_Forall; [exact HC|]. simpl. unfold canonL. simpl.
+    apply takeN_in; [exact HB|]. apply (nth_error_Forall (Canon F) regs src (TLazy l) HC E).
+  - unfold step_post. simpl. split; [apply set_nth_Forall; simpl; auto|].
+    split; [unfold set_reg; rewrite <- set_nth_map; reflexivity|].
+    split; [reflexivity|]. intros HC. split; [reflexivity|]. apply set_nth_Forall; simpl; auto.
+Qed.
+
+Lemma step_writeread F hdr regs r :
+  Forall (Inv F) regs -> m_guard F regs (OWriteRead r) = true ->
+  step_post F regs (m_step cc F hdr regs (OWriteRead r)) (s_step F hdr (map (abs F) regs) (OWriteRead r)).
+Proof.
+  intros HI HG. simpl in *. rewrite nth_error_map'. destruct (nth_error regs r) as [[l|t]|] eqn:E; simpl;
+    [|apply post_same; exact HI|apply post_same; exact HI].
+  destruct (l_set l) eqn:ES; [|discriminate].
+  assert (Hx : rows_of_cols dv (length (l_buf l)) (map (fun f => parse_col F f (l_buf l)) (all_fields F)) = abs F (TLazy l)).
+  { unfold abs. apply rows_of_cols_ext. intros f _. unfold a_col. rewrite ES. reflexivity. }
+  rewrite Hx. apply post_same. exact HI.
+Qed.
+
 Lemma step_ok F hdr regs o :
   Forall (Inv F) regs -> guard_with gc F regs o = true ->
   step_post F regs (m_step cc F hdr regs o) (s_step F hdr (map (abs F) regs) o).
@@ -831,6 +866,8 @@ Proof.
   - apply step_rep; auto.
   - apply step_tolist; auto.
   - apply step_write; auto.
+  - apply step_sel; auto.
+  - apply step_writeread; auto.
 Qed.
 
 (* ================================================================ whole programs *)
